@@ -248,8 +248,8 @@ H("verifier_loud", variant="x64-linux", modules=["rt", "count"],
 H("count_restarts_per_installation", variant="x64-linux", modules=["rt", "count"], replay="replay_count_restarts",
   cex_schema=[("f", 8, 1), ("entry_bytes", 1, 24), ("n", 8, 1), ("c", 8, 1)],
   covers=["COVER: leftover count, two admitted calls", "COVER: scope exit after exactly N calls with a leftover count"],
-  forbidden=[(r"fake$|::fake", r"called more times than expected", ["C07"], "a call within the budget of THIS installation is refused because calls absorbed by an earlier installation of the same fake! expression still count"),
-             (r"CallCountVerifier", r".", ["C07"], "scope exit reports a count mismatch although exactly N calls were made during this installation")],
+  forbidden=[(r"fake$|::fake", r"called more times than expected", ["C07", "C05"], "a call within the budget of THIS installation is refused because calls absorbed by an earlier installation of the same fake! expression (e.g. one that ended in a panic) still count"),
+             (r"CallCountVerifier", r".", ["C07", "C05"], "scope exit reports a count mismatch although exactly N calls were made during this installation")],
   functions=["WhenCalledBuilder::will_execute", "fake! expansion (fn() -> bool, returns, times)", "CallCountVerifier::drop", "InjectorPP::drop"] + X64_CORE_FUNCS,
   symbolic="leftover counter value c from earlier lifetimes: all usize; budget N in {1,2}; function address and bytes symbolic",
   bounds="one installation from an arbitrary leftover counter state (inductive over lifetimes), N <= 2 calls; unwind 26",
@@ -381,7 +381,7 @@ PROPERTIES = {
         seed_rotation=['x64_api_hist_l2', 'x64_api_hist_l1x2', 'a64_core_boolean', 'x64_api_flavours'],
         level_text="Bounded model checking of restoration: (a) one installation from an arbitrary entry state restores byte-for-byte for every address placement (the inductive step: each guard puts back exactly what it overwrote); (b) histories through the public API with K=2 functions and L<=2 (quick) / L<=3 (thorough) installations with symbolic targets and kinds, including the same function several times: while the injector lives the latest installation is in effect, after drop every entry equals its original image; two consecutive lifetimes; L<=3 on the 32-bit ARM variant (same drop logic, cheaper encoding).",
         level_note="Histories longer than 3 installations are outside the bound; the stack argument (guards released newest first, each restoring what it saved) is exercised in full at L=3 but is not proved for unbounded L. Allocator replaced by its contract in history harnesses. Unwinding is modelled as scope exit (C05).",
-        quick=["x64_core_redirect", "x64_core_boolean", "x64_api_hist_l1", "arm_api_same2", "arm_api_same3"],
+        quick=["x64_core_redirect", "x64_core_boolean", "x64_api_hist_l1", "arm_api_same2", "arm_api_same3", "panic_at_p2"],
         thorough=["x64_core_redirect", "x64_core_boolean", "x64_api_hist_l1", "x64_api_hist_l2", "x64_api_hist_l3", "x64_api_hist_l1x2", "arm_api_same2", "arm_api_same3", "a64_core_redirect"],
         timeout_min={"quick": 25, "thorough": 180},
         outside=["histories longer than L=3", "more than two distinct functions per history", "fake kinds other than redirect/forced boolean in histories (closure/fake!/async reach the same guard constructor; see C01/C14)"],
@@ -425,7 +425,7 @@ PROPERTIES = {
         level_text="Unwinding modelled as early scope exit with panicking()==true (the stub also reaches std, so the mutex really becomes poisoned). For each crash position of a scripted body (after creation, after each installation, after the calls, normal exit) with a call-count expectation pending (N in {0,1}, k calls): no panic site is reachable inside any destructor (CallCountVerifier::drop for ALL (count, expected) when panicking - a second panic would abort), every function is restored, no trampoline stays mapped, the lock is free; the next InjectorPP::new() and a full install/call/drop cycle and a preventer work (the POISONED branch itself is unreachable in the model because Kani builds std with panic=abort; it is exercised by a native premise with real unwinding in a thread). Library panics during installation (signature mismatch, null pointer, non-bool target, allocation exhaustion, mprotect failure) are reached with no code write, no mprotect and no live mapping before them.",
         level_note="Trusted: rustc's unwinder runs the same drop glue as an early return. Outside: mprotect failing during restoration (a page that could be made writable once is assumed to be again), panics inside extern \"C\" fakes (excluded by the property), the intermediate state 'verifier stored, guard not yet' after a refused will_execute is covered compositionally by verifier_quiet (silent for every count when panicking).",
         premises=["premise_poison_recovery"],
-        quick=["panic_at_p2", "panic_at_p4", "after_panic_usable", "verification_panic_comes_after_restore", "verifier_quiet", "sig_gate_differs_6", "null_pointer_refused", "mprotect_failure_leaves_target_untouched"],
+        quick=["panic_at_p2", "panic_at_p4", "after_panic_usable", "verification_panic_comes_after_restore", "count_restarts_per_installation", "verifier_quiet", "sig_gate_differs_6", "null_pointer_refused", "mprotect_failure_leaves_target_untouched"],
         thorough=["panic_at_p0", "panic_at_p1", "panic_at_p2", "panic_at_p3", "panic_at_p4", "normal_exit_p5", "after_panic_usable", "verification_panic_comes_after_restore", "verifier_quiet",
                   "sig_gate_differs_6", "sig_gate_async_differs_6", "null_pointer_refused", "bool_gate_refuses_16", "mprotect_failure_leaves_target_untouched", "x64_alloc_layout_16m"],
         timeout_min={"quick": 25, "thorough": 120},
@@ -512,7 +512,8 @@ PROPERTIES = {
         seed_rotation=['arm_core_t32_misaligned', 'arm_api_same2', 'win_core_redirect'],
         level_text="Dirty-bit model decided by the solver: every simulated write marks its bytes dirty, a flush clears the bytes it covers; at return from every installation and from drop no byte may be dirty, and no instruction byte on the interpreted path may be dirty, for every placement and for histories L<=2/3 (x86-64 Linux and 32-bit ARM so far).",
         level_note="Whether __clear_cache itself works is outside. macOS/Windows primitives are not modelled here.",
-        quick=["x64_core_redirect", "x64_core_boolean", "x64_api_hist_l1", "arm_core_a32", "a64_core_boolean"],
+        premises=["premise_flush_native"],
+        quick=["x64_core_redirect", "x64_core_boolean", "x64_api_hist_l1", "arm_core_a32", "arm_api_same2", "a64_core_boolean"],
         thorough=["x64_core_redirect", "x64_core_boolean", "x64_api_hist_l2", "x64_api_hist_l3", "arm_core_a32", "arm_core_t32_misaligned", "arm_api_same2", "a64_core_redirect", "a64_core_boolean"],
         outside=["correctness of the platform flush primitive", "macOS and Windows"],
     ),
@@ -703,6 +704,26 @@ def premise_async_refake_native(work, tier):
             "detail": p.stdout.strip().splitlines()[-1], "samples": ["fake quota; fake limit; await; re-fake quota; await x3; drop; await x2"]}
 
 
+def premise_flush_native(work, tier):
+    """C17 native premise (NOT a solver step): the platform primitive __clear_cache is interposed in a native run;
+    after every install / re-install / drop each modified byte (entry and trampoline) must lie in a range that was
+    flushed after its last write.  Placements: ordinary, straddling a 64-byte line, straddling a page; 40 successive
+    fakes of one function (trampolines more than 64 KiB apart)."""
+    outs = []
+    bad = []
+    for tag, scn in (("placements", "func 0 - 64 11\nfunc 1 - 126 12\nfunc 2 - 4093 13\nfakefn F near 777\n" +
+                      "".join("watch %d\nnew\nraw %d F\nflushed %d\ncall %d 777\ndrop\nflushed %d\ncall %d %d\n" % (i, i, i, i, i, i, 11 + i) for i in range(3))),
+                     ("refake", "func 0 - 1024 11\nwatch 0\nnew\nrefake 0 40\ndrop\nflushed 0\ncall 0 11\nbytes 0\n")):
+        r = _native(work, scn, "flush_" + tag)
+        outs.append(r.get("detail", ""))
+        if r.get("reproduced") is True:
+            bad.append("%s: %s" % (tag, r.get("detail", "")))
+        elif r.get("reproduced") is None:
+            return {"name": "flush_native", "ok": None, "detail": r.get("detail", "")}
+    return {"name": "flush_native", "ok": not bad, "evaluations": 2, "distinct": 2, "violations": bad, "detail": " || ".join(outs)[:600],
+            "samples": ["install/drop at page offsets 64, 126 (64-byte line), 4093 (page)", "40 successive fakes of one function"]}
+
+
 def premise_verifier_message(work, tier):
     """native premise: the scope-exit panic message names both numbers (sampled values; format string)"""
     src = open(os.path.join(regen.REPO, "src", "interface", "verifier.rs")).read()
@@ -735,7 +756,7 @@ def replay_x64_core(rec, work):
     off = f & 4095
     if "value" in cx:
         v = cx["value"] & 1
-        scn = "func 0 %x %d 11\nnew\nbool 0 %d\ncall 0 %d\ndrop\nbytes 0\ncall 0 11\nmaps\n" % (f, off, v, v)
+        scn = "func 0 %x %d 11\nwatch 0\nnew\nbool 0 %d\nflushed 0\ncall 0 %d\ndrop\nflushed 0\nbytes 0\ncall 0 11\nmaps\n" % (f, off, v, v)
     else:
         t, j = cx.get("t", 0), cx.get("j", 0)
         disp = t - j
@@ -744,7 +765,7 @@ def replay_x64_core(rec, work):
             fake = "fakefn_rel F 0 %d 777" % disp
         else:
             fake = "fakefn F far 777"
-        scn = "func 0 %x %d 11\n%s\nnew\nraw 0 F\ncall 0 777\ncallregs 0 777\ndrop\nbytes 0\ncall 0 11\nmaps\n" % (f, off, fake)
+        scn = "func 0 %x %d 11\n%s\nwatch 0\nnew\nraw 0 F\nflushed 0\ncall 0 777\ncallregs 0 777\ndrop\nflushed 0\nbytes 0\ncall 0 11\nmaps\n" % (f, off, fake)
     return _native(work, scn, rec["harness"])
 
 
